@@ -29,9 +29,9 @@ static void gen_wire(gbody *b) {
         gpart *p = &b->parts[i];
         hb_printf(&b->wire, "--%s%s", b->boundary, nl);
         hb_puts(&b->wire, "Content-Disposition: form-data; name=\"");
-        for (const char *c = p->name; *c; c++) { if (*c == '"') hb_putc(&b->wire, '\\'); hb_putc(&b->wire, *c); }
+        for (const char *c = p->name; *c; c++) { if (*c == '"' || *c == '\\') hb_putc(&b->wire, '\\'); hb_putc(&b->wire, *c); }
         hb_putc(&b->wire, '"');
-        if (p->has_file) hb_printf(&b->wire, "; filename=\"%s\"", p->fname);
+        if (p->has_file) { hb_puts(&b->wire, "; filename=\""); for (const char *c = p->fname; *c; c++) { if (*c == '"' || *c == '\\') hb_putc(&b->wire, '\\'); hb_putc(&b->wire, *c); } hb_putc(&b->wire, '"'); }
         hb_puts(&b->wire, nl);
         if (p->has_ct) hb_printf(&b->wire, "Content-Type: text/plain%s", nl);
         hb_puts(&b->wire, nl);
@@ -227,7 +227,8 @@ static int worker(int argc, char **argv) {
     static const char *const NEAR[] = { "\r\n--", "\r\n--B", "x--BB", "--", "\r\n-", "a\r\n--\r\n--", "\n--B", "\r\n--b-", "x\r\n--" };
     for (size_t i = 0; i < sizeof NEAR / sizeof NEAR[0]; i++) { CLEN[ncont] = strlen(NEAR[i]); memcpy(CONT[ncont++], NEAR[i], strlen(NEAR[i])); }
     static const char *const BND[] = { "BB", "b", "-x-" };
-    static const char *const NAMES[] = { "a", "a\"b", "" };
+    static const char *const NAMES[] = { "a", "a\"b", "", "a\\", "\\a\\\\b" };       /* plain, escaped quote, empty, trailing backslash, backslashes */
+    static const char *const FNAMES[] = { "", "f.txt", "C:\\d\\" };
     static gbody b;
     /* zero parts */
     for (int bi = 0; bi < 3; bi++) for (int pe = 0; pe < 4; pe++) for (int lf = 0; lf < 2; lf++) {
@@ -235,9 +236,9 @@ static int worker(int argc, char **argv) {
         if (!mine()) continue; gen_wire(&b); describe_body(&b); explore_body(&b);
     }
     /* one part: full content set */
-    for (int bi = 0; bi < 3; bi++) for (int ci = 0; ci < ncont; ci++) for (int ni = 0; ni < 3; ni++) for (int fl = 0; fl < 2; fl++) for (int ct = 0; ct < 2; ct++) for (int pe = 0; pe < 4; pe++) for (int lf = 0; lf < 2; lf++) {
+    for (int bi = 0; bi < 3; bi++) for (int ci = 0; ci < ncont; ci++) for (int ni = 0; ni < 5; ni++) for (int fl = 0; fl < 3; fl++) for (int ct = 0; ct < 2; ct++) for (int pe = 0; pe < 4; pe++) for (int lf = 0; lf < 2; lf++) {
         memset(&b, 0, offsetof(gbody, wire)); strcpy(b.boundary, BND[bi]); b.nparts = 1; b.pre = pe & 1; b.epi = pe >> 1; b.lf = lf;
-        gpart *p = &b.parts[0]; strcpy(p->name, NAMES[ni]); p->has_file = fl; strcpy(p->fname, "f.txt"); p->has_ct = ct; memcpy(p->content, CONT[ci], CLEN[ci]); p->clen = CLEN[ci];
+        gpart *p = &b.parts[0]; strcpy(p->name, NAMES[ni]); p->has_file = fl > 0; strcpy(p->fname, FNAMES[fl]); p->has_ct = ct; memcpy(p->content, CONT[ci], CLEN[ci]); p->clen = CLEN[ci];
         if (!content_ok(&b, p->content, p->clen)) continue;
         if (!mine()) continue;
         if (hx_deadline_hit()) goto out;
